@@ -114,7 +114,7 @@ def run(res, tier, seed):
                     b = tg.ms_of(datetime.datetime(1988 if year < 1990 else (1992 if year < 2000 else 2004), 3, 1))
                 else:
                     b = tg.ms_of(datetime.datetime(year, rng.randrange(2, 12), rng.randrange(2, 27)))
-                k = rng.randrange(2, n - 2)
+                k = rng.choice([1, 1, n - 1, rng.randrange(2, n - 2), rng.randrange(2, n - 2)])   # incl. right after the first / before the last line
                 # boundary shortly before line k: a clock error of ~1 s then moves line k (and k+1) back across it
                 start = b - int((nums[k] - nums[0]) * per) + rng.choice([100, 300, 600, 5000])
             rec = tg.recorded_ms(fmt, nums, start)
